@@ -410,8 +410,10 @@ def allSome : List (Option Val) → Option (List Val)
   | none :: _ => none
   | some v :: r => (allSome r).map (v :: ·)
 
-/-- `can_generate_array=True`: a non-numeric component on a list maps the rest of the path over
-    the elements -/
+/-- `can_generate_array=True` (helpers.py:359-395): a non-numeric component on a list gives the
+    values that the documents of the list have at the rest of the path — the same rule applied to
+    each element that is a document, the ones where the path is missing (a KeyError) left out;
+    elements that are not documents are skipped; a numeric component indexes the list -/
 def getDotGen : List String → Val → R (Option Val)
   | [], d => .ok (some d)
   | p :: ps, .doc fs =>
@@ -421,8 +423,13 @@ def getDotGen : List String → Val → R (Option Val)
   | p :: ps, .arr xs => do
     match ← keyInt p with
     | none =>
-      let rs ← xs.mapM (getDotPlain (p :: ps))
-      pure ((allSome rs).map .arr)
+      let rs ← xs.mapM (fun x =>
+        match x with
+        | .doc gs => (match dget p gs with
+          | some v => getDotGen ps v
+          | none => .ok none)
+        | _ => .ok none)
+      pure (some (.arr (rs.filterMap id)))
     | some i =>
       match pyIndex xs i with
       | some v => getDotGen ps v
@@ -504,9 +511,14 @@ def isNull : Val → Bool
 
 /-- the `for value in parsed_values` loop of `$add`/`$multiply` (aggregate.py:397-400):
     `.ok none` = `return None` -/
+def isBoolV : Val → Bool
+  | .bool _ => true
+  | _ => false
+
 def checkNums : List Val → R (Option (List PyNum))
   | [] => .ok (some [])
   | .null :: _ => .ok none
+  | .bool _ :: _ => .error .opFail             -- "only supports numeric types, not bool"
   | v :: r =>
     match toPyNum v with
     | none => .error .other                       -- AssertionError
@@ -534,6 +546,7 @@ def checkAdd : List Val → Option Int → R (Option (Option Int × List PyNum))
   | .date _ (some _) :: _, _ => unmodelled
   | .date u none :: r, none => checkAdd r (some u)
   | .date _ none :: _, some _ => .error .opFail
+  | .bool _ :: _, _ => .error .opFail           -- "only supports numeric or date types, not bool"
   | v :: r, d =>
     match toPyNum v with
     | none => .error .other                       -- AssertionError
@@ -596,6 +609,7 @@ def pySubtract (a b : Val) : R Val :=
 /-- the binary arithmetic operators on `number_0, number_1` (aggregate.py:372-390) -/
 def binaryArith (op : String) (a b : Val) : R Val :=
   if isNull a || isNull b then .ok .null
+  else if isBoolV a || isBoolV b then .error .opFail     -- "only supports numeric types, not bool"
   else if op = "$subtract" then pySubtract a b
   else
     match toPyNum a, toPyNum b with
@@ -618,6 +632,7 @@ def binaryArith (op : String) (a b : Val) : R Val :=
 def unaryArithOpt (op : String) (r : Option Val) : R Val :=
   match r with
   | none | some .null => .ok .null
+  | some (.bool _) => .error .opFail                     -- a boolean is not a number
   | some v =>
     match toPyNum v with
     | none => .error .opFail
@@ -849,23 +864,27 @@ def groupingInExpr (op : String) (xs : List Val) : R Val :=
       (match sumNums (numsOfNB xs) (.i 0) with | .ok s => s.roundedByFloat | .error _ => false)
   then unmodelled else groupingList op xs
 
-/-- the operator applied to `self.parse(values)` (string argument) -/
+/-- the operator applied to `self.parse(values)` (one operand that is not written as a list): an
+    array value is ranged over; any other value is the only value `$sum $avg $min $max` accumulate
+    (`values = [values]`); `$first` / `$last` read `values[0] if values else None` off it -/
 def groupingOnValue (op : String) (v : Val) : R Val :=
   match v with
   | .arr xs => groupingInExpr op xs
-  | .null =>
-    if op = "$first" || op = "$last" then .ok .null      -- `values[0] if values else None`
-    else .error .typeErr                                  -- not iterable
-  | .int n | .dbl n _ =>
-    if (op = "$first" || op = "$last") && n == 0 then .ok .null else .error .typeErr
-  | .bool b =>
-    if (op = "$first" || op = "$last") && !b then .ok .null else .error .typeErr
-  | _ => unmodelled                                       -- strings / dicts iterate differently
+  | v =>
+    if !(op = "$first" || op = "$last") then groupingInExpr op [v]
+    else match v with
+      | .null => .ok .null
+      | .int n | .dbl n _ => if n == 0 then .ok .null else .error .typeErr
+      | .bool b => if !b then .ok .null else .error .typeErr
+      | .date _ _ | .oid _ => .error .typeErr
+      | _ => unmodelled                                   -- strings / dicts are subscripted
 
 /-- `$arrayElemAt` on the parsed array and index (aggregate.py:431-441), a missing operand having
     been read as null; `none` = KeyError -/
 def arrayElemAtOp (a i : Val) : R (Option Val) :=
-  if isNull a || isNull i then .ok (some .null) else
+  if isNull a || isNull i then .ok (some .null)
+  else if isBoolV i then .error .opFail                   -- "must be a numeric value, but is bool"
+  else
   match a with
   | .arr xs =>
     match intLike i with
@@ -895,11 +914,16 @@ def sizeOp (r : Option Val) : R Val :=
   | some (.arr xs) => .ok (.int xs.length)
   | _ => .error .opFail
 
+/-- `isinstance(v, int) and not isinstance(v, bool)` -/
+def intOnly : Val → Option Int
+  | .int n => some n
+  | _ => none
+
 /-- `$slice` with the parsed array and the *unparsed* remaining arguments (aggregate.py:772-796) -/
 def sliceOp (a : Val) (rest : List Val) : R Val :=
   match a with
   | .arr xs =>
-    match rest.map intLike with
+    match rest.map intOnly with
     | [some n] =>
       if n < 0 then .ok (.arr (pySlice xs n none)) else .ok (.arr (pySlice xs 0 (some n)))
     | [some start, some cnt] =>
